@@ -51,6 +51,19 @@ def evaluate(kind, cfg, ops, names, want, seed=0):
     return r, res.violations
 
 
+def flush(res, runners):
+    """compare what has been run so far with the model and forget it (bounds the memory of the thorough tier)"""
+    bad, errs = hist.check_histories(runners)
+    res.errors += errs
+    for b in bad[:25]:
+        r = runners[b]
+        if len(res.mismatches) < 25:
+            res.mismatches.append(dict(suite='history', case=dict(server=r.kind, cfg=r.cfg.key(), ops=r.log), impl=r.outs,
+                                       model=hist.explain(r) if len(res.mismatches) < 2 else '(not shown)'))
+    res.traces += len(runners)
+    del runners[:]
+
+
 def shrink(kind, cfg, ops, names, want, clause, budget=60):
     """greedy deletion of stimuli while some violation of the same clause persists"""
     cur = list(ops)
@@ -116,13 +129,9 @@ def run(ctx, pid, names, profile, rule):
                 reported.add(key)
                 small, vx = shrink(kind, cfg, ops, names, want, x['facts'].get('clause'))
                 res.violations.append(vx or x)
-    bad, errs = hist.check_histories(runners)
-    res.errors += errs
-    for b in bad[:25]:
-        r = runners[b]
-        res.mismatches.append(dict(suite='history', case=dict(server=r.kind, cfg=r.cfg.key(), ops=r.log), impl=r.outs,
-                                   model=hist.explain(r) if len(res.mismatches) < 2 else '(not shown)'))
-    res.traces = len(runners)
+        if len(runners) >= 6000:
+            flush(res, runners)
+    flush(res, runners)
     return res
 
 
